@@ -439,11 +439,6 @@ DynObservable(r) ==
      [] r.ty \in {"u.float", "u.complex"} -> Repr(r.v, DefaultType(r.ty)).st = "ok"
      [] OTHER -> TRUE)
 
-\* whether the constant has an integer kind/type is observable for every known numeric value through
-\*   ((c - c) + 1) / 2 == 0     (integer division gives 0, rational division 1/2)
-\* also when the value does not fit its default type
-KindObservable(r) == r.st = "ok" /\ r.chk /\ r.v.k = "n"
-
 (* ================================================================== PART II: implementation-shaped *)
 (* int64Const of constant.go at width W: the fast path computes in W-bit two's complement and promotes to
    big.Int ("big") when one of its overflow predicates fires.  Values are native integers here (W <= 16). *)
